@@ -57,8 +57,8 @@ def run(tier, seed):
                "greater than or equal to", "less than or equal to", "at least", "at most", "not after"]
         tie_ok = False
         tout += '\n%s' % e
-    thresholds = list(range(-1, 5)) if tier == 'thorough' else [0, 2, 4]
-    bt_pairs = [(l, u) for l in range(-1, 5) for u in range(-1, 5)] if tier == 'thorough' else [(1, 3), (2, 2), (3, 1), (0, 4)]
+    thresholds = list(range(0, 5)) if tier == 'thorough' else [0, 2, 4]      # (the language has no negative numerals)
+    bt_pairs = [(l, u) for l in range(0, 5) for u in range(0, 5)] if tier == 'thorough' else [(1, 3), (2, 2), (3, 1), (0, 4)]
 
     corr_cases, corr_meta = [], []
     obs_cases, obs_meta = [], []
